@@ -62,8 +62,10 @@ def single_estimators(d, ctx):
     rng = d.rng()
     complex_ = which in ('ccsg', 'watson', 'cacg', 'cacg-fixed-point')
     y, _ = mm.cluster_data(rng, lead, 2, N, D, complex_, d.choice([0.1, 0.5, 1.0]))
+    offset = 1.0
     if not complex_:
-        y = y + rng.normal(size=(*lead, 1, D))
+        offset = d.choice([1.0, 1.0, 1e2, 1e4, 1e6])
+        y = y + offset * rng.normal(size=(*lead, 1, D))
     sal, skind = (None, 'none') if which.startswith('cacg') else \
         _weights(d, rng, lead, N)
     ctx.describe(trainer=which, lead=lead, D=D, N=N, saliency=skind)
@@ -76,8 +78,10 @@ def single_estimators(d, ctx):
         for idx in np.ndindex(*lead):
             mean, cov = oe.gaussian_ml(y[idx], w_all[idx], ct)
             require_close(np.asarray(m.mean)[idx], mean, 'gaussian-mean', rtol=1e-10, atol=1e-12)
+            # centring loses eps * |mean| / std relative accuracy, not more
             require_close(np.asarray(m.covariance)[idx], cov, f'gaussian-covariance-{ct}',
-                          rtol=1e-9, atol=1e-12)
+                          rtol=1e-9 + 1e-13 * offset, atol=1e-12,
+                          what=f'offset {offset:g}')
     elif which == 'ccsg':
         m = ctx.lib(dist.ComplexCircularSymmetricGaussianTrainer().fit, y, saliency=sal)
         for idx in np.ndindex(*lead):
